@@ -16,6 +16,7 @@
                   are kept on gain_min > 0 then power > 0, with the 0.3 dB fall-back around the best power.
  Rm memo          : every memoisation construct in the functions behind this property is keyed by everything it reads.
  Rp presence      : optional numeric fields are tested with `is None` / membership, never by truthiness (0 is a value).
+ Rv verbose       : blocks guarded by the verbose flag only report; the design does not depend on the logging flag.
 """
 import ast
 
@@ -415,6 +416,15 @@ def r5_capability(ctx):
 
 
 
+def rv_verbose(ctx):
+    """Rv: blocks guarded by the `verbose` flag only report (no value read after the block, no object state written, no exit):
+    the design does not depend on the logging flag"""
+    from .common import verbose_rule
+    from ..memo import scope_funcs
+    verbose_rule(ctx, 'Rv.verbose-pure', scope_funcs(ctx.repo, 'C10'), 'the selected amplifier model would depend on the logging flag')
+    ctx.need('Rv.verbose-pure', 2)
+
+
 from ..memo import rule_for as _memo_rule
 
 RULES_MEMO = ('Rm.memo', _memo_rule('C10', 'a model would be ranked or judged with the figures of another library or gain'))
@@ -425,4 +435,4 @@ from ..presence import rule_for as _presence_rule
 RULES_PRESENCE = ('Rp.presence', _presence_rule('C10', 'a legal zero would be read as missing'))
 
 RULES = [('R1.precedence', r1_precedence), ('R2.band-cover', r2_band_cover), ('R3.selection', r3_selection),
-         ('R4.raman-gate', r4_raman_gate), ('R5.capability', r5_capability), RULES_MEMO, RULES_PRESENCE]
+         ('R4.raman-gate', r4_raman_gate), ('R5.capability', r5_capability), RULES_MEMO, RULES_PRESENCE, ('Rv.verbose-pure', rv_verbose)]
